@@ -229,7 +229,9 @@ class Indexer(object):
             The value to set.
         """
         if self._flat_src:
-            arr.ravel()[self.flat()] = val
+            # arr.ravel() is a copy when arr is not contiguous (e.g. the real view of a complex
+            # vector), which would lose the assignment
+            arr.flat[self.flat()] = val
         else:
             arr[self()] = val
 
